@@ -231,6 +231,25 @@ def run_stop_after_failure(rec, F):
                         k = next((e[1] for e in r[1]["p"] if e[0] == "field"), None)
                         if k is not None:
                             inner.add(k)
+            for bi, si, s_ in nc.stmts():
+                if not s_["d"]["p"]:
+                    continue
+                # `failure = Some(err)`: a store through the captured &mut Option (directly or via a copy of the capture)
+                k = None
+                if s_["d"]["l"] == 1:
+                    k = next((e[1] for e in s_["d"]["p"] if e[0] == "field"), None)
+                else:
+                    rb = nc.root_of({"copy": {"l": s_["d"]["l"], "p": []}})
+                    if rb[0] == "place" and rb[1]["l"] == 1:
+                        k = next((e[1] for e in rb[1]["p"] if e[0] == "field"), None)
+                if k is None:
+                    continue
+                val_is_some = s_["r"]["k"] == "agg" and "Option::Some" in s_["r"]["adt"]
+                if s_["r"]["k"] == "use":
+                    rv = nc.root_of(s_["r"]["a"])
+                    val_is_some = rv[0] == "rvalue" and rv[1]["k"] == "agg" and "Option::Some" in rv[1]["adt"]
+                if val_is_some:
+                    inner.add(k)
             if not inner:
                 continue
             for bi, si, s_ in c.stmts():
